@@ -13,6 +13,13 @@
 import WaveletsVerif.Lemmas.Basic
 import WaveletsVerif.Properties.C19
 import WaveletsVerif.Model.Dtcwt
+import WaveletsVerif.Lemmas.PR
+import WaveletsVerif.Lemmas.Lift
+import WaveletsVerif.Spec.DtcwtRef
+import WaveletsVerif.Properties.C03
+import Mathlib.Tactic.NormNum
+import Mathlib.Tactic.IntervalCases
+import Mathlib.Data.Rat.Defs
 namespace WV.C04
 open Finset WV WV.C19
 variable {R : Type} [CommRing R]
@@ -103,5 +110,500 @@ theorem extendEven_length {α : Type} (x : Img α) : (extendEven x).length = x.l
 /-- non-vacuity: `s = 1/√2` exists in ℝ-like rings; over ℤ the hypothesis `2·s·s = 1` is unsatisfiable,
 so the instance is checked at the level of the statement's shape on a concrete block image -/
 example : (q2c (1:Int) (tab2 2 2 fun i j => ((3*i + j : Nat) : Int))).1.1 = [[0 - 4]] := by decide
+
+
+/-! ## level 1: perfect reconstruction of the symmetric biorthogonal bank -/
+
+theorem symIdx_period_mul (l x q : Int) : symIdx l (x + 2*l*q) = symIdx l x := by
+  unfold symIdx
+  have : (x + 2*l*q) % (2*l) = x % (2*l) := by
+    rw [Int.add_mul_emod_self_left]
+  simp only [this]
+
+/-- `symIdx` picks `u` itself or its mirror image `−1−u`, up to a multiple of `2l` -/
+theorem symIdx_cases (l u : Int) (hl : 0 < l) :
+    (∃ q : Int, symIdx l u = u + 2*l*q) ∨ (∃ q : Int, symIdx l u = -1 - u + 2*l*q) := by
+  unfold symIdx
+  have hdm := Int.emod_add_mul_ediv u (2*l)
+  simp only
+  by_cases hc : u % (2*l) < l
+  · left; refine ⟨-(u / (2*l)), ?_⟩
+    rw [if_pos hc]
+    have : 2*l*(-(u/(2*l))) = -(2*l*(u/(2*l))) := by ring
+    rw [this]; omega
+  · right; refine ⟨u / (2*l) + 1, ?_⟩
+    rw [if_neg hc]
+    have : 2*l*(u/(2*l) + 1) = 2*l*(u/(2*l)) + 2*l := by ring
+    rw [this]; omega
+
+theorem xt_period (x : List R) (v q : Int) : Spec.xt x (v + 2*(x.length:Int)*q) = Spec.xt x v := by
+  unfold Spec.xt; rw [symIdx_period_mul]
+
+theorem xt_reflect (x : List R) (hN : 1 ≤ x.length) (v : Int) : Spec.xt x (-1 - v) = Spec.xt x v := by
+  unfold Spec.xt; rw [symIdx_reflect _ _ (by omega)]
+
+theorem xt_inside (x : List R) (i : Nat) (hi : i < x.length) : Spec.xt x (i:Int) = getN x i := by
+  unfold Spec.xt; rw [symIdx_id _ _ (by omega) (by omega), ← getN_eq_getZ]
+
+/-- an odd-length filter `h` (`L = 2m+1`) is symmetric -/
+def Symm (h : List R) : Prop := ∀ j < h.length, getN h (h.length - 1 - j) = getN h j
+
+theorem colfilter_length (h x : List R) (hodd : h.length % 2 = 1) : (Spec.colfilter h x).length = x.length := by
+  simp [Spec.colfilter]; omega
+
+theorem colfilter_get (h x : List R) (hodd : h.length % 2 = 1) (i : Nat) (hi : i < x.length) :
+    getN (Spec.colfilter h x) i = ∑ j ∈ range h.length, getN h j * Spec.xt x ((i:Int) + ((h.length/2 : Nat):Int) - (j:Int)) := by
+  unfold Spec.colfilter
+  rw [getN_tab, if_pos (by omega), sumN_eq]
+  apply Finset.sum_congr rfl; intro j hj
+  have hj' : j < h.length := by simpa using hj
+  congr 2
+  omega
+
+/-- **filtering with a symmetric odd-length filter commutes with the symmetric extension**:
+the extension of the filtered column is the filtered extension, at every integer position -/
+theorem xt_colfilter (h x : List R) (hodd : h.length % 2 = 1) (hs : Symm h) (hN : 1 ≤ x.length) (u : Int) :
+    Spec.xt (Spec.colfilter h x) u = ∑ j ∈ range h.length, getN h j * Spec.xt x (u + ((h.length/2 : Nat):Int) - (j:Int)) := by
+  have hlen := colfilter_length h x hodd
+  have hr := symIdx_range (x.length:Int) u (by omega)
+  set s := symIdx (x.length:Int) u with hs'
+  have hval : Spec.xt (Spec.colfilter h x) u = getN (Spec.colfilter h x) s.toNat := by
+    unfold Spec.xt
+    rw [hlen, ← hs', getN_eq_getZ]
+    congr 1; omega
+  rw [hval, colfilter_get h x hodd s.toNat (by omega)]
+  have hsn : ((s.toNat : Nat) : Int) = s := by omega
+  rw [hsn]
+  rcases symIdx_cases (x.length:Int) u (by omega) with ⟨q, hq⟩ | ⟨q, hq⟩
+  · apply Finset.sum_congr rfl; intro j _
+    congr 1
+    rw [hs'] at *
+    rw [hq]
+    have : u + 2 * (x.length:Int) * q + ((h.length/2 : Nat):Int) - (j:Int) = (u + ((h.length/2 : Nat):Int) - (j:Int)) + 2 * (x.length:Int) * q := by ring
+    rw [this, xt_period]
+  · rw [← Finset.sum_range_reflect]
+    apply Finset.sum_congr rfl; intro j hj
+    have hj' : j < h.length := by simpa using hj
+    rw [hs j hj']
+    congr 1
+    rw [hs'] at *
+    rw [hq]
+    have e : -1 - u + 2 * (x.length:Int) * q + ((h.length/2 : Nat):Int) - ((h.length - 1 - j : Nat):Int)
+        = (-1 - (u + ((h.length/2 : Nat):Int) - (j:Int))) + 2 * (x.length:Int) * q := by
+      have : ((h.length - 1 - j : Nat):Int) = (h.length:Int) - 1 - j := by omega
+      rw [this]
+      have h2 : (h.length:Int) = 2 * ((h.length/2 : Nat):Int) + 1 := by omega
+      rw [h2]; ring
+    rw [e, xt_period, xt_reflect x hN]
+
+/-- the level-1 perfect-reconstruction condition of a biorthogonal pair of odd-length filters:
+`(g0 ∗ h0)(c0 − d) + (g1 ∗ h1)(c1 − d) = δ_d` with the products centred at `c = ⌊Lg/2⌋ + ⌊Lh/2⌋` -/
+def PR1 (h0 h1 g0 g1 : List R) : Prop :=
+  ∀ d : Int,
+    (∑ a ∈ range g0.length, getN g0 a * getZ h0 ((((g0.length/2 + h0.length/2 : Nat)):Int) - d - (a:Int)))
+    + (∑ a ∈ range g1.length, getN g1 a * getZ h1 ((((g1.length/2 + h1.length/2 : Nat)):Int) - d - (a:Int)))
+      = if d = 0 then 1 else 0
+
+/-- one band: synthesis filter after (symmetric) analysis filter, as a kernel acting on the extension -/
+theorem band_kernel (h g x : List R) (hh : h.length % 2 = 1) (hg : g.length % 2 = 1) (hs : Symm h)
+    (hN : 1 ≤ x.length) (i : Nat) (hi : i < x.length) (D : Nat) (hD : g.length/2 + h.length/2 ≤ D) :
+    getN (Spec.colfilter g (Spec.colfilter h x)) i
+      = ∑ u ∈ Finset.Ico ((i:Int) - D) ((i:Int) + D + 1), Spec.xt x u *
+          (∑ a ∈ range g.length, getN g a * getZ h ((((g.length/2 + h.length/2 : Nat)):Int) - (u - (i:Int)) - (a:Int))) := by
+  rw [colfilter_get g _ hg i (by rw [colfilter_length h x hh]; exact hi)]
+  have h1 : ∀ a ∈ range g.length, getN g a * Spec.xt (Spec.colfilter h x) ((i:Int) + ((g.length/2 : Nat):Int) - (a:Int))
+      = ∑ u ∈ Finset.Ico ((i:Int) - D) ((i:Int) + D + 1), Spec.xt x u *
+          (getN g a * getZ h ((((g.length/2 + h.length/2 : Nat)):Int) - (u - (i:Int)) - (a:Int))) := by
+    intro a ha
+    have ha' : a < g.length := by simpa using ha
+    rw [xt_colfilter h x hh hs hN]
+    have := sum_taps_window h (Spec.xt x) ((i:Int) + ((g.length/2 : Nat):Int) - (a:Int) + ((h.length/2 : Nat):Int))
+      (Finset.Ico ((i:Int) - D) ((i:Int) + D + 1)) (by
+        intro j hj
+        rw [Finset.mem_Ico]
+        have hg2 : (g.length:Int) = 2 * ((g.length/2 : Nat):Int) + 1 := by omega
+        have hh2 : (h.length:Int) = 2 * ((h.length/2 : Nat):Int) + 1 := by omega
+        have hDz : ((g.length/2 : Nat):Int) + ((h.length/2 : Nat):Int) ≤ (D:Int) := by exact_mod_cast hD
+        omega)
+    have e : ∀ j : Nat, (i:Int) + ((g.length/2 : Nat):Int) - (a:Int) + ((h.length/2 : Nat):Int) - (j:Int)
+        = (i:Int) + ((g.length/2 : Nat):Int) - (a:Int) + ((h.length/2 : Nat):Int) - (j:Int) := fun _ => rfl
+    rw [this, Finset.mul_sum]
+    apply Finset.sum_congr rfl; intro u _
+    have : (i:Int) + ((g.length/2 : Nat):Int) - (a:Int) + ((h.length/2 : Nat):Int) - u
+        = (((g.length/2 + h.length/2 : Nat)):Int) - (u - (i:Int)) - (a:Int) := by push_cast; ring
+    rw [this]; ring
+  rw [Finset.sum_congr rfl h1, Finset.sum_comm]
+  apply Finset.sum_congr rfl; intro u _
+  rw [Finset.mul_sum]
+
+/-- **DTCWT level-1 perfect reconstruction along one axis**: for odd-length analysis filters `h0, h1` that are
+symmetric, and synthesis filters `g0, g1` with `PR1`, the reference column filters satisfy
+`colfilter g0 (colfilter h0 x) + colfilter g1 (colfilter h1 x) = x` for every column `x` of every length —
+however short compared with the filters (the extension reflects as often as needed). -/
+theorem colfilter_pr (h0 h1 g0 g1 x : List R) (hh0 : h0.length % 2 = 1) (hh1 : h1.length % 2 = 1)
+    (hg0 : g0.length % 2 = 1) (hg1 : g1.length % 2 = 1) (hs0 : Symm h0) (hs1 : Symm h1)
+    (hpr : PR1 h0 h1 g0 g1) (hN : 1 ≤ x.length) (i : Nat) (hi : i < x.length) :
+    getN (Spec.colfilter g0 (Spec.colfilter h0 x)) i + getN (Spec.colfilter g1 (Spec.colfilter h1 x)) i = getN x i := by
+  set D := (g0.length/2 + h0.length/2) + (g1.length/2 + h1.length/2) with hD
+  rw [band_kernel h0 g0 x hh0 hg0 hs0 hN i hi D (by omega), band_kernel h1 g1 x hh1 hg1 hs1 hN i hi D (by omega),
+    ← Finset.sum_add_distrib]
+  have hk : ∀ u ∈ Finset.Ico ((i:Int) - D) ((i:Int) + D + 1),
+      Spec.xt x u * (∑ a ∈ range g0.length, getN g0 a * getZ h0 ((((g0.length/2 + h0.length/2 : Nat)):Int) - (u - (i:Int)) - (a:Int)))
+      + Spec.xt x u * (∑ a ∈ range g1.length, getN g1 a * getZ h1 ((((g1.length/2 + h1.length/2 : Nat)):Int) - (u - (i:Int)) - (a:Int)))
+      = Spec.xt x u * (if u - (i:Int) = 0 then 1 else 0) := by
+    intro u _
+    rw [← mul_add, hpr (u - (i:Int))]
+  rw [Finset.sum_congr rfl hk]
+  have hm : (i:Int) ∈ Finset.Ico ((i:Int) - D) ((i:Int) + D + 1) := by rw [Finset.mem_Ico]; omega
+  rw [Finset.sum_eq_single_of_mem (i:Int) hm]
+  · simp [xt_inside x i hi]
+  · intro u _ hne
+    have : ¬ (u - (i:Int) = 0) := by omega
+    rw [if_neg this]; ring
+
+
+/-! ### images -/
+open WV.C19 in
+/-- rectangular `H × W` image -/
+def Rect (x : Img R) (H W : Nat) : Prop := x.length = H ∧ ∀ r ∈ x, r.length = W
+
+theorem rect_width (x : Img R) (H W : Nat) (hx : Rect x H W) (hH : 1 ≤ H) : x.width = W := by
+  obtain ⟨h1, h2⟩ := hx
+  unfold Img.width
+  cases x with
+  | nil => simp at h1; omega
+  | cons r rest => simp; exact h2 r (by simp)
+
+theorem rect_eq_tab2 (x : Img R) (H W : Nat) (hx : Rect x H W) : x = tab2 H W (get2 x) := by
+  obtain ⟨h1, h2⟩ := hx
+  apply List.ext_getElem
+  · simp [tab2, h1]
+  · intro i hi1 hi2
+    have hi : i < H := by omega
+    simp only [tab2, tab, List.getElem_map, List.getElem_range]
+    have hr : (x[i]).length = W := h2 _ (List.getElem_mem hi1)
+    apply List.ext_getElem
+    · simp [hr]
+    · intro j hj1 hj2
+      simp only [List.getElem_map, List.getElem_range]
+      unfold get2
+      have e1 : x.getD i [] = x[i] := by
+        rw [List.getD_eq_getElem?_getD, List.getElem?_eq_getElem hi1]; rfl
+      rw [e1, List.getD_eq_getElem?_getD, List.getElem?_eq_getElem hj1]
+      rfl
+
+theorem tab2_rect (H W : Nat) (f : Nat → Nat → R) : Rect (tab2 H W f) H W := by
+  constructor
+  · simp [tab2]
+  · intro r hr
+    simp [tab2, tab] at hr
+    obtain ⟨i, _, rfl⟩ := hr
+    simp
+
+/-- column `j` of an image -/
+def col (x : Img R) (j : Nat) : List R := tab x.length fun i => get2 x i j
+
+theorem tr_getD (x : Img R) (j : Nat) (hj : j < x.width) : (tr x).getD j [] = col x j := by
+  unfold tr tab2
+  rw [getD_tab, if_pos hj]
+  rfl
+
+/-- a length-preserving column operator applied along the columns, pixel by pixel -/
+theorem alongH_get (f : List R → List R) (x : Img R) (H W : Nat) (hx : Rect x H W) (hH : 1 ≤ H) (hW : 1 ≤ W)
+    (hf : ∀ c : List R, c.length = H → (f c).length = H) :
+    alongH f x = tab2 H W fun i j => getN (f (col x j)) i := by
+  have hw := rect_width x H W hx hH
+  unfold alongH
+  have hY : (tr x).map f = tab W fun j => f (col x j) := by
+    unfold tr tab2
+    rw [hw]
+    unfold tab
+    rw [List.map_map]
+    apply List.map_congr_left
+    intro j _
+    simp only [Function.comp]
+    rfl
+  rw [hY]
+  unfold tr
+  have hl : (tab W fun j => f (col x j)).length = W := by simp
+  have hwid : Img.width (tab W fun j => f (col x j)) = H := by
+    unfold Img.width tab
+    cases W with
+    | zero => omega
+    | succ k =>
+      simp [List.range_succ_eq_map]
+      apply hf; simp [col, hx.1]
+  rw [hl, hwid]
+  unfold tab2
+  apply tab_ext rfl; intro i hi
+  apply tab_ext rfl; intro j hj
+  show ((tab W fun j => f (col x j)).getD j []).getD i 0 = getN (f (col x j)) i
+  rw [getD_tab, if_pos hj]
+  rfl
+
+theorem alongW_get (f : List R → List R) (x : Img R) (H W : Nat) (hx : Rect x H W)
+    (hf : ∀ c : List R, c.length = W → (f c).length = W) :
+    alongW f x = tab2 H W fun i j => getN (f (x.getD i [])) j := by
+  obtain ⟨h1, h2⟩ := hx
+  unfold alongW
+  apply List.ext_getElem
+  · simp [tab2, h1]
+  · intro i hi1 hi2
+    have hi : i < x.length := by simpa using hi1
+    simp only [tab2, tab, List.getElem_map, List.getElem_range]
+    have hxi : x.getD i [] = x[i] := by
+      rw [List.getD_eq_getElem?_getD, List.getElem?_eq_getElem hi]; rfl
+    rw [hxi]
+    have hr : (f x[i]).length = W := hf _ (h2 _ (List.getElem_mem hi))
+    apply List.ext_getElem
+    · simp [hr]
+    · intro j hj1 hj2
+      simp only [List.getElem_map, List.getElem_range]
+      unfold getN
+      rw [List.getD_eq_getElem?_getD, List.getElem?_eq_getElem hj1]
+      rfl
+
+
+theorem tab_getN (l : List R) (n : Nat) (h : l.length = n) : tab n (getN l) = l := by
+  apply List.ext_getElem
+  · simp [h]
+  · intro i h1 h2
+    simp only [tab, List.getElem_map, List.getElem_range]
+    unfold getN
+    rw [List.getD_eq_getElem?_getD, List.getElem?_eq_getElem h2]; rfl
+
+theorem tab2_congr (H W : Nat) (f g : Nat → Nat → R) (h : ∀ i < H, ∀ j < W, f i j = g i j) : tab2 H W f = tab2 H W g := by
+  unfold tab2
+  apply tab_ext rfl; intro i hi
+  apply tab_ext rfl; intro j hj
+  exact h i hi j hj
+
+theorem col_tab2 (H W : Nat) (f : Nat → Nat → R) (j : Nat) (hj : j < W) : col (tab2 H W f) j = tab H fun i => f i j := by
+  unfold col
+  have : (tab2 H W f).length = H := by simp [tab2]
+  rw [this]
+  apply tab_ext rfl; intro i hi
+  exact C19.get2_tab2 H W f i j hi hj
+
+theorem iadd_tab2 (H W : Nat) (f g : Nat → Nat → R) :
+    iadd (tab2 H W f) (tab2 H W g) = tab2 H W fun i j => f i j + g i j := by
+  unfold iadd
+  have : (tab2 H W f).length = H := by simp [tab2]
+  rw [this]
+  unfold tab2
+  apply tab_ext rfl; intro i hi
+  rw [getD_tab, getD_tab, if_pos hi, if_pos hi]
+  unfold vadd
+  rw [length_tab]
+  apply tab_ext rfl; intro j hj
+  rw [getN_tab, getN_tab, if_pos hj, if_pos hj]
+
+abbrev Cf (h : List R) : List R → List R := Spec.colfilter h
+
+/-- column PR on images -/
+theorem col_pr_img (h0 h1 g0 g1 : List R) (hh0 : h0.length % 2 = 1) (hh1 : h1.length % 2 = 1)
+    (hg0 : g0.length % 2 = 1) (hg1 : g1.length % 2 = 1) (hs0 : Symm h0) (hs1 : Symm h1) (hpr : PR1 h0 h1 g0 g1)
+    (y : Img R) (H W : Nat) (hy : Rect y H W) (hH : 1 ≤ H) (hW : 1 ≤ W) :
+    iadd (alongH (Cf g1) (alongH (Cf h1) y)) (alongH (Cf g0) (alongH (Cf h0) y)) = y := by
+  have hlen : ∀ (h : List R), h.length % 2 = 1 → ∀ c : List R, c.length = H → (Cf h c).length = H := by
+    intro h hh c hc; rw [colfilter_length h c hh, hc]
+  have step : ∀ (h g : List R), h.length % 2 = 1 → g.length % 2 = 1 →
+      alongH (Cf g) (alongH (Cf h) y) = tab2 H W fun i j => getN (Cf g (Cf h (col y j))) i := by
+    intro h g hh hg
+    rw [alongH_get (Cf h) y H W hy hH hW (hlen h hh)]
+    rw [alongH_get (Cf g) _ H W (tab2_rect H W _) hH hW (hlen g hg)]
+    apply tab2_congr; intro i _ j hj
+    rw [col_tab2 H W _ j hj, tab_getN _ H (hlen h hh _ (by simp [col, hy.1]))]
+  rw [step h1 g1 hh1 hg1, step h0 g0 hh0 hg0, iadd_tab2]
+  conv_rhs => rw [rect_eq_tab2 y H W hy]
+  apply tab2_congr; intro i hi j hj
+  have hc : (col y j).length = H := by simp [col, hy.1]
+  rw [add_comm, colfilter_pr h0 h1 g0 g1 (col y j) hh0 hh1 hg0 hg1 hs0 hs1 hpr (by omega) i (by omega)]
+  unfold col
+  rw [getN_tab, hy.1, if_pos hi]
+
+/-- row PR on images -/
+theorem row_pr_img (h0 h1 g0 g1 : List R) (hh0 : h0.length % 2 = 1) (hh1 : h1.length % 2 = 1)
+    (hg0 : g0.length % 2 = 1) (hg1 : g1.length % 2 = 1) (hs0 : Symm h0) (hs1 : Symm h1) (hpr : PR1 h0 h1 g0 g1)
+    (y : Img R) (H W : Nat) (hy : Rect y H W) (hW : 1 ≤ W) :
+    iadd (alongW (Cf g1) (alongW (Cf h1) y)) (alongW (Cf g0) (alongW (Cf h0) y)) = y := by
+  have hlen : ∀ (h : List R), h.length % 2 = 1 → ∀ c : List R, c.length = W → (Cf h c).length = W := by
+    intro h hh c hc; rw [colfilter_length h c hh, hc]
+  have hrow : ∀ i < H, (y.getD i []).length = W := by
+    intro i hi
+    apply hy.2
+    rw [List.getD_eq_getElem?_getD, List.getElem?_eq_getElem (by rw [hy.1]; exact hi)]; simp
+  have step : ∀ (h g : List R), h.length % 2 = 1 → g.length % 2 = 1 →
+      alongW (Cf g) (alongW (Cf h) y) = tab2 H W fun i j => getN (Cf g (Cf h (y.getD i []))) j := by
+    intro h g hh hg
+    rw [alongW_get (Cf h) y H W hy (hlen h hh)]
+    rw [alongW_get (Cf g) _ H W (tab2_rect H W _) (hlen g hg)]
+    apply tab2_congr; intro i hi j _
+    have : (tab2 H W fun i j => getN (Cf h (y.getD i [])) j).getD i [] = Cf h (y.getD i []) := by
+      unfold tab2
+      rw [getD_tab, if_pos hi, tab_getN _ W (hlen h hh _ (hrow i hi))]
+    rw [this]
+  rw [step h1 g1 hh1 hg1, step h0 g0 hh0 hg0, iadd_tab2]
+  conv_rhs => rw [rect_eq_tab2 y H W hy]
+  apply tab2_congr; intro i hi j hj
+  rw [add_comm, colfilter_pr h0 h1 g0 g1 (y.getD i []) hh0 hh1 hg0 hg1 hs0 hs1 hpr (by rw [hrow i hi]; exact hW) j (by rw [hrow i hi]; exact hj)]
+  rfl
+
+
+theorem alongH_congr (f g : List R → List R) (x : Img R) (h : ∀ c, c.length = x.length → f c = g c) :
+    alongH f x = alongH g x := by
+  unfold alongH
+  congr 1
+  apply List.map_congr_left
+  intro c hc
+  exact h c (tr_row_length x c hc)
+
+theorem colfilter_model (h : List R) (hL : 1 ≤ h.length) (y : Img R) (hy : 1 ≤ y.length) :
+    colfilter true (prepFilt h) y = alongH (Cf h) y := by
+  unfold colfilter
+  apply alongH_congr
+  intro c hc
+  exact C03.colfilter1_eq_ref h c hL (by omega)
+
+theorem rowfilter_model (h : List R) (hL : 1 ≤ h.length) (y : Img R) (W : Nat) (hW : 1 ≤ W) (hy : ∀ r ∈ y, r.length = W) :
+    rowfilter true (prepFilt h) y = alongW (Cf h) y := by
+  unfold rowfilter alongW
+  apply List.map_congr_left
+  intro r hr
+  exact C03.colfilter1_eq_ref h r hL (by rw [hy r hr]; exact hW)
+
+theorem alongH_rect (h : List R) (hh : h.length % 2 = 1) (y : Img R) (H W : Nat) (hy : Rect y H W) (hH : 1 ≤ H) (hW : 1 ≤ W) :
+    Rect (alongH (Cf h) y) H W := by
+  rw [alongH_get (Cf h) y H W hy hH hW (fun c hc => by rw [colfilter_length h c hh, hc])]
+  exact tab2_rect H W _
+
+theorem alongW_rect (h : List R) (hh : h.length % 2 = 1) (y : Img R) (H W : Nat) (hy : Rect y H W) :
+    Rect (alongW (Cf h) y) H W := by
+  rw [alongW_get (Cf h) y H W hy (fun c hc => by rw [colfilter_length h c hh, hc])]
+  exact tab2_rect H W _
+
+/-- quads ↔ complex pairs round trip on the three band images -/
+theorem highs_round_trip (s : R) (hs : 2 * s * s = 1) (lh hl hh : Img R) (H W : Nat) (hH : 1 ≤ H)
+    (r1 : Rect lh (2*H) (2*W)) (r2 : Rect hl (2*H) (2*W)) (r3 : Rect hh (2*H) (2*W)) :
+    orientationsToHighs s (highsToOrientations s lh hl hh) = (lh, hl, hh) := by
+  unfold orientationsToHighs highsToOrientations
+  simp only [List.getD_cons_zero, List.getD_cons_succ]
+  have k : ∀ y : Img R, Rect y (2*H) (2*W) → c2q s (q2c s y).1 (q2c s y).2 = y := by
+    intro y hy
+    have := c2q_q2c s hs H W (by omega) (get2 y)
+    rw [← rect_eq_tab2 y (2*H) (2*W) hy] at this
+    exact this
+  rw [k lh r1, k hl r2, k hh r3]
+
+
+theorem cropToHighs_id (ll : Img R) (H W : Nat) (hl : ll.length = 2 * H) (hw : ll.width = 2 * W) :
+    cropToHighs ll H W = ll := by
+  unfold cropToHighs
+  have c1 : ¬ (ll.length ≠ 2 * H) := by simp [hl]
+  simp only [c1, if_false]
+  have c2 : ¬ (ll.width ≠ 2 * W) := by simp [hw]
+  simp only [c2, if_false]
+
+/-- **DTCWT level-1 perfect reconstruction at the level of the implementation model**: for every even-sized
+image, every pair of symmetric odd-length analysis filters and synthesis filters with `PR1`, and `2s² = 1`,
+`inv_j1(fwd_j1(x)) = x` — `fwd_j1` and `inv_j1` as modelled from `transform_funcs.py` (row and column
+filtering with `prep_filt` buffers on the symmetric extension, `q2c` / `c2q` packing, crop rule). -/
+theorem level1_pr (s : R) (hs : 2 * s * s = 1) (h0 h1 g0 g1 : List R) (hh0 : h0.length % 2 = 1)
+    (hh1 : h1.length % 2 = 1) (hg0 : g0.length % 2 = 1) (hg1 : g1.length % 2 = 1) (hs0 : Symm h0) (hs1 : Symm h1)
+    (hpr : PR1 h0 h1 g0 g1) (x : Img R) (H W : Nat) (hH : 1 ≤ H) (hW : 1 ≤ W) (hx : Rect x (2*H) (2*W)) :
+    invJ1 s true (prepFilt g0) (prepFilt g1) (H, W)
+        (some (fwdJ1 s true (prepFilt h0) (prepFilt h1) false x).1) (fwdJ1 s true (prepFilt h0) (prepFilt h1) false x).2
+      = some x := by
+  have L0 : 1 ≤ h0.length := by omega
+  have L1 : 1 ≤ h1.length := by omega
+  have G0 : 1 ≤ g0.length := by omega
+  have G1 : 1 ≤ g1.length := by omega
+  have h2H : 1 ≤ 2 * H := by omega
+  have h2W : 1 ≤ 2 * W := by omega
+  -- forward pass in terms of the reference column filter
+  have eLo : rowfilter true (prepFilt h0) x = alongW (Cf h0) x := rowfilter_model h0 L0 x (2*W) h2W hx.2
+  have eHi : rowfilter true (prepFilt h1) x = alongW (Cf h1) x := rowfilter_model h1 L1 x (2*W) h2W hx.2
+  have rLo := alongW_rect h0 hh0 x _ _ hx
+  have rHi := alongW_rect h1 hh1 x _ _ hx
+  set lo := alongW (Cf h0) x with hlo
+  set hi := alongW (Cf h1) x with hhi
+  have ell : colfilter true (prepFilt h0) lo = alongH (Cf h0) lo := colfilter_model h0 L0 lo (by rw [rLo.1]; exact h2H)
+  have elh : colfilter true (prepFilt h1) lo = alongH (Cf h1) lo := colfilter_model h1 L1 lo (by rw [rLo.1]; exact h2H)
+  have ehl : colfilter true (prepFilt h0) hi = alongH (Cf h0) hi := colfilter_model h0 L0 hi (by rw [rHi.1]; exact h2H)
+  have ehh : colfilter true (prepFilt h1) hi = alongH (Cf h1) hi := colfilter_model h1 L1 hi (by rw [rHi.1]; exact h2H)
+  have rll := alongH_rect h0 hh0 lo _ _ rLo h2H h2W
+  have rlh := alongH_rect h1 hh1 lo _ _ rLo h2H h2W
+  have rhl := alongH_rect h0 hh0 hi _ _ rHi h2H h2W
+  have rhh := alongH_rect h1 hh1 hi _ _ rHi h2H h2W
+  have hf : fwdJ1 s true (prepFilt h0) (prepFilt h1) false x
+      = (alongH (Cf h0) lo, some (highsToOrientations s (alongH (Cf h1) lo) (alongH (Cf h0) hi) (alongH (Cf h1) hi))) := by
+    unfold fwdJ1
+    simp only [Bool.false_eq_true, if_false, eLo, eHi, ← hlo, ← hhi, ell, elh, ehl, ehh]
+  rw [hf]
+  simp only [invJ1]
+  rw [highs_round_trip s hs _ _ _ H W hH rlh rhl rhh]
+  simp only []
+  rw [cropToHighs_id _ H W rll.1 (rect_width _ _ _ rll h2H)]
+  -- synthesis in terms of the reference column filter
+  have c1 : colfilter true (prepFilt g1) (alongH (Cf h1) hi) = alongH (Cf g1) (alongH (Cf h1) hi) :=
+    colfilter_model g1 G1 _ (by rw [rhh.1]; exact h2H)
+  have c2 : colfilter true (prepFilt g0) (alongH (Cf h0) hi) = alongH (Cf g0) (alongH (Cf h0) hi) :=
+    colfilter_model g0 G0 _ (by rw [rhl.1]; exact h2H)
+  have c3 : colfilter true (prepFilt g1) (alongH (Cf h1) lo) = alongH (Cf g1) (alongH (Cf h1) lo) :=
+    colfilter_model g1 G1 _ (by rw [rlh.1]; exact h2H)
+  have c4 : colfilter true (prepFilt g0) (alongH (Cf h0) lo) = alongH (Cf g0) (alongH (Cf h0) lo) :=
+    colfilter_model g0 G0 _ (by rw [rll.1]; exact h2H)
+  rw [c1, c2, c3, c4]
+  rw [col_pr_img h0 h1 g0 g1 hh0 hh1 hg0 hg1 hs0 hs1 hpr hi _ _ rHi h2H h2W]
+  have ra := alongH_rect g1 hg1 _ _ _ rlh h2H h2W
+  have rb := alongH_rect g0 hg0 _ _ _ rll h2H h2W
+  have hshape : ¬ ((alongH (Cf g1) (alongH (Cf h1) lo)).length ≠ (alongH (Cf g0) (alongH (Cf h0) lo)).length ∨
+      (alongH (Cf g1) (alongH (Cf h1) lo)).width ≠ (alongH (Cf g0) (alongH (Cf h0) lo)).width) := by
+    rw [ra.1, rb.1, rect_width _ _ _ ra h2H, rect_width _ _ _ rb h2H]; simp
+  rw [if_neg hshape]
+  rw [col_pr_img h0 h1 g0 g1 hh0 hh1 hg0 hg1 hs0 hs1 hpr lo _ _ rLo h2H h2W]
+  rw [rowfilter_model g1 G1 hi (2*W) h2W rHi.2, rowfilter_model g0 G0 lo (2*W) h2W rLo.2]
+  rw [hhi, hlo, row_pr_img h0 h1 g0 g1 hh0 hh1 hg0 hg1 hs0 hs1 hpr x _ _ hx h2W]
+
+
+/-- `PR1` only has to be checked for `|d| ≤ D`: outside, every product vanishes -/
+theorem pr1_of_bounded (h0 h1 g0 g1 : List R) (hh0 : h0.length % 2 = 1) (hh1 : h1.length % 2 = 1)
+    (hg0 : g0.length % 2 = 1) (hg1 : g1.length % 2 = 1) (D : Nat)
+    (hD0 : g0.length/2 + h0.length/2 ≤ D) (hD1 : g1.length/2 + h1.length/2 ≤ D)
+    (hb : ∀ d : Int, -(D:Int) ≤ d → d ≤ D →
+      (∑ a ∈ range g0.length, getN g0 a * getZ h0 ((((g0.length/2 + h0.length/2 : Nat)):Int) - d - (a:Int)))
+      + (∑ a ∈ range g1.length, getN g1 a * getZ h1 ((((g1.length/2 + h1.length/2 : Nat)):Int) - d - (a:Int)))
+        = if d = 0 then 1 else 0) :
+    PR1 h0 h1 g0 g1 := by
+  intro d
+  by_cases hin : -(D:Int) ≤ d ∧ d ≤ D
+  · exact hb d hin.1 hin.2
+  · have hd0 : ¬ d = 0 := by omega
+    rw [if_neg hd0]
+    have z : ∀ (g h : List R), g.length % 2 = 1 → h.length % 2 = 1 → g.length/2 + h.length/2 ≤ D →
+        ∑ a ∈ range g.length, getN g a * getZ h ((((g.length/2 + h.length/2 : Nat)):Int) - d - (a:Int)) = 0 := by
+      intro g h hg hh hD
+      apply Finset.sum_eq_zero
+      intro a ha
+      have ha' : a < g.length := by simpa using ha
+      have : getZ h ((((g.length/2 + h.length/2 : Nat)):Int) - d - (a:Int)) = 0 := by
+        by_cases hneg : (((g.length/2 + h.length/2 : Nat)):Int) - d - (a:Int) < 0
+        · exact getZ_neg _ _ hneg
+        · apply getZ_of_ge
+          push_cast at hneg ⊢
+          omega
+      rw [this, mul_zero]
+    rw [z g0 h0 hg0 hh0 hD0, z g1 h1 hg1 hh1 hD1, add_zero]
+
+/-- the shipped `legall` table (LeGall 5/3, exactly dyadic) satisfies `PR1` over ℚ, and its analysis filters are
+symmetric: the hypotheses of `level1_pr` are satisfiable by a table the library ships -/
+example : PR1 (R := ℚ) [-1/8, 1/4, 3/4, 1/4, -1/8] [-1/4, 1/2, -1/4] [1/4, 1/2, 1/4] [-1/8, -1/4, 3/4, -1/4, -1/8] := by
+  apply pr1_of_bounded _ _ _ _ (by decide) (by decide) (by decide) (by decide) 3 (by decide) (by decide)
+  intro d h1 h2
+  interval_cases d <;> simp [Finset.sum_range_succ, getN, getZ] <;> norm_num
+
+example : Symm (R := ℚ) [-1/8, 1/4, 3/4, 1/4, -1/8] ∧ Symm (R := ℚ) [-1/4, 1/2, -1/4] := by
+  constructor <;> intro j hj <;> simp at hj <;> interval_cases j <;> simp [getN]
+
 
 end WV.C04
